@@ -100,6 +100,10 @@ def cases(rng, tier):
         add(a, {"kind": "list", "is": [300, -300, 32767][:3 if L > 32767 else 2], "long": True, "idt": "int16"}, dt="int64")
         ss = [q for q in (0, 254, 65530, L - 3) if 0 <= q < L - 1]
         add(a, {"kind": "windows", "ss": ss, "es": [min(L, q + 10) for q in ss], "long": True}, dt="int64")
+        # masks that keep hundreds / tens of thousands of cells of ONE run (all but a few cells; every other cell; a long prefix)
+        for bs in ([i != 2 for i in range(L)], [i % 2 == 0 for i in range(L)], [i < L - 3 and i % 300 != 7 for i in range(L)]):
+            add(a, {"kind": "mask", "bs": bs, "rl": False, "long": True}, dt=rng.choice(["int64", "uint8", "float64"]))
+        add(a, {"kind": "mask", "bs": [i % 300 != 7 for i in range(L)], "rl": True, "long": True}, dt="int64")
     for _ in range(1500 if tier == "quick" else 20000):
         a = rlgen.array_random(rng, 40)
         n = len(a)
